@@ -405,7 +405,8 @@ func c09() []*Ob {
 						c.Site(rp.Ret.Pos(), "success with count 0 (empty request): nothing is claimed to be stored")
 						continue
 					}
-					if AckOne(rp, CallsIn(fn, store)) {
+					// the call itself, or a private helper that succeeds only when the call did (storeBulk)
+					if AckOne(rp, CallsIn(fn, c.P.AckCall(store))) {
 						c.Site(rp.Ret.Pos(), "non-zero created count is returned only after StoreDocuments returned nil")
 					} else {
 						c.Violation("ack:ProcessDocuments:StoreDocuments", rp.Ret.Pos(), "ProcessDocuments can report documents as created without a successful StoreDocuments")
